@@ -34,6 +34,8 @@ package goat
 //@ chan H.goat.handler.unaryRpcChan never_closed
 //@ chan Mval.map_Luint64_Rgoat.streamHandler.ch never_closed
 //@ chan Mval.map_Luint64_Rgoat.streamHandler.done never_closed
+//@ chan H.goat.streamHandler.ch never_closed
+//@ chan H.goat.streamHandler.done never_closed
 // the class of a channel is a refinement of the place it is stored in (proved at every store, assumed at every load)
 //@ chan Mval.map_Luint64_Rgoat.streamHandler.ch class goat.streams.ch
 //@ chan H.goat.handler.unaryRpcChan class goat.unaryRpcChan
@@ -71,8 +73,8 @@ package goat
 //@   nopanic[C12.nopanic]
 //@   ctxaware[C10.read_loop_escapes]
 //@   requires[C12.dispatch_wellformed] rpc != nil && rpc.Header != nil && info != nil && sd != nil && sd.Handler != nil && clientCtx != nil
-//@   makechan 0 tag rpc.Id class goat.streams.ch
-//@   makechan 1 tag rpc.Id
+//@   makechan 0 tag rpc.Id class goat.streams.ch nc
+//@   makechan 1 tag rpc.Id nc
 //@   atcall[C05.deliver_to_owner C02.forward_unchanged] send : isclass(arg0, "goat.streams.ch") ==> tag(arg0) == rpc.Id && arg1 == rpc
 //@   ensures[C12.start_at_most_once C05.start_at_most_once] ncalls("go:(*github.com/avos-io/goat.handler).runStream") <= old(ncalls("go:(*github.com/avos-io/goat.handler).runStream")) + 1
 //@   ensures[C12.no_start_for_known_or_malformed C14.no_start_for_known_or_malformed C06.no_start_for_known_or_malformed C20.no_start_for_known_or_malformed C05.no_start_for_known_or_malformed] atlock(rpc.Id in h.streams) || (rpc.Reset_ != nil && rpc.Reset_.Type == "RST_STREAM") || rpc.Body != nil || rpc.Trailer != nil ==>
@@ -107,8 +109,8 @@ package goat
 //@ func goat.newHandler
 //@   nopanic[C12.nopanic]
 //@   requires ctx != nil && rw != nil && objinv(srv)
-//@   makechan 0 tag 0
-//@   makechan 1 tag 0 class goat.unaryRpcChan
+//@   makechan 0 tag 0 nc
+//@   makechan 1 tag 0 class goat.unaryRpcChan nc
 //@   ensures[C06.writer_handoff_is_synchronous C03.writer_handoff_is_synchronous] cap(result.writeChan) == 0
 //@   ensures[C10.conn_ctx_descends] result != nil && desc(result.ctx, ctx) && cancels(result.cancel) == result.ctx
 //@   ensures[C12.handler_wellformed C10.handler_wellformed] objinv(result) && result.srv == srv && result.rw == rw
@@ -142,7 +144,7 @@ package goat
 //@   nopanic[C12.nopanic]
 //@   atcall[C20.end_reports_final_error] internal.StatsEndRPC : arg3 == appErr && !arg1
 //@   requires info != nil && sd != nil && sd.Handler != nil && rpc != nil && rpc.Header != nil && ctx != nil
-//@   requires handler.ch != nil && handler.cancel != nil && handler.done != nil && isclass(handler.ch, "goat.streams.ch") && tag(handler.ch) == streamId && isclass(handler.done, "none")
+//@   requires handler.ch != nil && handler.cancel != nil && handler.done != nil && isclass(handler.ch, "goat.streams.ch") && tag(handler.ch) == streamId && isclass(handler.done, "none") && neverclosed(handler.ch) && neverclosed(handler.done)
 //@   ensures[C14.stream_unregistered C10.stream_unregistered] !(streamId in h.streams)
 //@   ensures[C06.trailer_after_handler C02.trailer_after_handler C03.trailer_after_handler] ncalls("call:server.(*serverStream).SendTrailer") == old(ncalls("call:server.(*serverStream).SendTrailer")) + 1
 //@   ensures[C01.handler_once C20.handler_once C12.handler_once] ncalls("fnfield:H.google.golang.org/grpc.StreamDesc.Handler") + ncalls("fnfield:H.goat.Server.streamInterceptor")
@@ -196,7 +198,7 @@ package goat
 //@   inline
 //@   holds goat.Proxy.mutex
 //@   nopanic[C16.nopanic C17.nopanic]
-//@   makechan 0 tag 0
+//@   makechan 0 tag 0 nc
 //@   ensures[C16.dial_on_demand] result != nil && result.id == id && result.fromServer != nil && id in p.clients && p.clients[id] == result
 //@   ensures[C16.dial_once] ncalls("go:(*github.com/avos-io/goat.proxyClient).connect") == old(ncalls("go:(*github.com/avos-io/goat.proxyClient).connect")) + 1
 
@@ -226,7 +228,7 @@ package goat
 //@ func goat.NewProxy
 //@   nopanic[C17.nopanic]
 //@   requires ctx != nil && newConnection != nil
-//@   makechan 0 tag 0 class goat.proxy.commands
+//@   makechan 0 tag 0 class goat.proxy.commands nc
 //@   ensures[C17.constructed_wellformed C16.constructed_wellformed] objinv(result)
 
 //@ func goat.(*Proxy).serveClients
@@ -270,21 +272,31 @@ package goat
 
 //@ lock goat.Demux.conns.Mutex guards conns.value
 //@   inv[C18.conn_table] forall k String :: k in self.conns.value ==> self.conns.value[k] != nil && self.conns.value[k].r != nil && self.conns.value[k].w != nil
-//@     | && !closed(self.conns.value[k].r) && !closed(self.conns.value[k].w) && self.conns.value[k].r != self.conns.value[k].w
-//@     | && tag(self.conns.value[k].r) == strId(k) && tag(self.conns.value[k].w) == strId(k)
+//@     | && self.conns.value[k].done != nil && !closed(self.conns.value[k].done) && self.conns.value[k].r != self.conns.value[k].w
+//@     | && tag(self.conns.value[k].r) == strId(k) && tag(self.conns.value[k].w) == strId(k) && tag(self.conns.value[k].done) == strId(k)
+// the data queues of a logical connection are never closed (a parked hand-off cannot panic); Cancel closes done
+//@ chan H.goat.demuxConn.r never_closed
+//@ chan H.goat.demuxConn.w never_closed
+//@ chan H.goat.demuxConn.done closable
+// a pure signal: nothing is ever sent on it, so a receive from it succeeds only once it has been closed
+//@ chanclass goat.signal msg: false
+//@ chan H.goat.demuxConn.done class goat.signal
+//@ chan cell.Int.github.com_avos_io_goat.newGoatOverChannel.done class goat.signal
 
 //@ func goat.(*Demux).newConnLocked
 //@   inline
 //@   holds goat.Demux.conns.Mutex
 //@   nopanic[C18.nopanic]
-//@   makechan 0 tag strId(id)
-//@   makechan 1 tag strId(id)
+//@   makechan 0 tag strId(id) nc
+//@   makechan 1 tag strId(id) nc
+//@   makechan 2 tag strId(id) class goat.signal
 //@   ensures[C18.created_and_announced_once] result != nil && id in gsd.conns.value && gsd.conns.value[id] == result
 //@     | && ncalls("go:fnfield:H.goat.Demux.onNewConnection") == old(ncalls("go:fnfield:H.goat.Demux.onNewConnection")) + 1
 
 //@ func goat.(*Demux).Run
 //@   nopanic[C18.nopanic]
-//@   loop 0 invariant[C18.each_envelope_handed_over_once_in_order] ncalls("send") - ncalls("(types.RpcReadWriter).Read") == loopentry(0, ncalls("send") - ncalls("(types.RpcReadWriter).Read"))
+//@   loop 0 invariant[C18.each_envelope_handed_over_once_in_order] bound("conn") ==> ncalls("send") == iterstart(0, ncalls("send")) + 1 || closed(conn.done)
+//@   loop 0 invariant[C18.each_envelope_handed_over_once_in_order] ncalls("send") <= iterstart(0, ncalls("send")) + 1
 //@   loop 0 invariant[C18.each_envelope_handed_over_once_in_order] ncalls("go:goat.(*Demux).Run$1") == loopentry(0, ncalls("go:goat.(*Demux).Run$1"))
 //@   atcall[C18.handed_to_keys_connection] send : arg1 == rpc && bound("conn") && arg0 == conn.r && id == lastret("fnfield:H.goat.Demux.demuxOn")
 //@     | && aftercall("sync.Mutex).Unlock", id in gsd.conns.value && gsd.conns.value[id] == conn)
@@ -296,17 +308,21 @@ package goat
 // writer goroutine of a logical connection: every envelope received on c.w is written once, unchanged
 //@ func goat.(*Demux).newConnLocked$1
 //@   nopanic[C18.nopanic]
-//@   captures[C18.writer_has_its_queue] c != nil && c.w != nil
+//@   captures[C18.writer_has_its_queue] c != nil && c.w != nil && c.done != nil
 //@   loop 0 invariant[C18.writer_loop] true
 //@   atcall[C18.write_unchanged] (types.RpcReadWriter).Write : bound("rpc") && arg2 == rpc && arg1 == gsd.ctx
 
 // channel transport closures
 // the two queues are the caller's own plain channels (not one of goat's internal classed queues)
+// API precondition: the output queue is never closed by its owner while the adapter may send on it
 //@ func goat.NewGoatOverChannel
 //@   inline
-//@   requires isclass(inQ, "none") && isclass(outQ, "none")
+//@   requires isclass(inQ, "none") && isclass(outQ, "none") && neverclosed(outQ)
+//@ func goat.newGoatOverChannel
+//@   inline
+//@   requires isclass(inQ, "none") && isclass(outQ, "none") && neverclosed(outQ) && (done == nil || isclass(done, "goat.signal"))
 
-//@ func goat.NewGoatOverChannel$1
+//@ func goat.newGoatOverChannel$1
 //@   nopanic[C18.nopanic C19.nopanic]
 //@   ctxaware[C19.read_returns_on_ctx] ctx
 //@   requires ctx != nil
@@ -314,9 +330,9 @@ package goat
 //@   ensures[C19.closed_is_error C18.closed_is_error] bound("ok") && !ok ==> result.1 != nil
 //@   ensures[C19.closed_or_done_is_error C18.closed_or_done_is_error] !lastrecvok() ==> result.1 != nil
 
-//@ func goat.NewGoatOverChannel$2
+//@ func goat.newGoatOverChannel$2
 //@   nopanic[C18.nopanic C19.nopanic]
-//@   captures isclass(outQ, "none")
+//@   captures isclass(outQ, "none") && neverclosed(outQ)
 //@   ctxaware[C19.write_returns_on_ctx] ctx
 //@   requires ctx != nil
 //@   atcall[C19.write_hands_over_same_envelope C18.write_hands_over_same_envelope] send : arg1 == rpc
@@ -347,15 +363,19 @@ package goat
 //@   ensures[C19.ws_write_once] result == nil ==> ncalls("(*github.com/coder/websocket.Conn).Write") == old(ncalls("(*github.com/coder/websocket.Conn).Write")) + 1
 
 //@ objinv[C19.objinv] goat.GoatOverHttp : self.ctx != nil && self.conns.value != nil && self.onConnect != nil && self.sourceToAddress != nil && self.clock != nil && self.cancel != nil
-//@ objinv[C19.objinv] goat.httpReadWriter : self.readCh != nil && self.cancel != nil && self.clock != nil
+//@ objinv[C19.objinv] goat.httpReadWriter : self.readCh != nil && self.closed != nil && self.cancel != nil && self.clock != nil
+// the delivery queue of an HTTP connection is never closed (a parked delivery cannot panic); unregistering closes `closed`
+//@ chan H.goat.httpReadWriter.readCh never_closed
+//@ chan H.goat.httpReadWriter.closed closable
 
 //@ lock goat.GoatOverHttp.conns.Mutex guards conns.value
-//@   inv[C19.http_conn_table] forall k String :: k in self.conns.value ==> self.conns.value[k] != nil && self.conns.value[k].readCh != nil && !closed(self.conns.value[k].readCh)
+//@   inv[C19.http_conn_table] forall k String :: k in self.conns.value ==> self.conns.value[k] != nil && self.conns.value[k].readCh != nil && self.conns.value[k].closed != nil && !closed(self.conns.value[k].closed) && tag(self.conns.value[k].closed) == strId(k)
 //@     | && tag(self.conns.value[k].readCh) == strId(k) && self.conns.value[k].cancel != nil && self.conns.value[k].clock != nil && self.conns.value[k].writeAddr == k
 
 //@ func goat.(*GoatOverHttp).retrieve
 //@   nopanic[C19.nopanic]
-//@   makechan 0 tag strId(id)
+//@   makechan 0 tag strId(id) nc
+//@   makechan 1 tag strId(id)
 //@   ensures[C19.http_one_conn_per_source] result.0 != nil && result.0.readCh != nil && id in goh.conns.value && goh.conns.value[id] == result.0 && result.1 == !atlock(id in goh.conns.value)
 
 //@ func goat.(*GoatOverHttp).unregisterLocked
@@ -386,7 +406,7 @@ package goat
 //@   ctxaware[C19.read_returns_on_ctx] ctx
 //@   requires ctx != nil
 //@   ensures[C19.http_read_wellformed] (result.1 == nil) != (result.0 == nil) || (result.1 == nil && result.0 == nil)
-//@   ensures[C19.closed_is_error] bound("ok") && !ok ==> result.1 != nil
+//@   ensures[C19.closed_is_error] !lastrecvok() ==> result.1 != nil
 
 //@ func goat.(*httpReadWriter).Write
 //@   nopanic[C19.nopanic]
@@ -549,6 +569,7 @@ package goat
 // API precondition: a peer is attached with a usable connection
 //@ func goat.(*Proxy).AddClient
 //@   requires conn != nil
+//@   makechan 0 tag 0 nc
 
 // writer goroutine of a connection: the only writer on the transport, under the connection context
 //@ func goat.(*handler).serve$2
